@@ -326,7 +326,25 @@ func TestVerifC18Rand(t *testing.T) {
 			bgCtx, bgCancel := context.WithCancel(context.Background())
 			for op := 0; op < nOps && !c.Violated(); op++ {
 				i := c.Intn(nP)
-				switch c.Intn(13) {
+				opk := c.Intn(14)
+				switch opk {
+				case 13:
+					// a handler created while subscription changes of several peers are on their way to the event loop
+					if len(x.hs) < 3 {
+						k := 0
+						for j := 0; j < nP; j++ {
+							if x.att[j] && c.Chance(0.7) {
+								x.pups[j].Send(x.r.nd.ID(), vSubRPC(c.Chance(0.4), "t"))
+								k++
+							}
+						}
+						for y := 0; y < c.Intn(4); y++ {
+							runtime.Gosched()
+						}
+						x.newHandler()
+						vSettle(5 * time.Millisecond)
+						hist = append(hist, fmt.Sprintf("newHandler#%d(racing %d announcements)", len(x.hs)-1, k))
+					}
 				case 0, 1, 2:
 					x.sub(i, true)
 					hist = append(hist, fmt.Sprintf("sub(p%d)", i+1))
